@@ -27,6 +27,7 @@ type Cfg struct {
 
 var KeyA = []byte("0123456789abcdef")
 var KeyB = []byte("fedcba9876543210fedcba9876543210")
+var KeyC = []byte("c0c1c2c3c4c5c6c7c8c9cacb")
 var KeyForeign = []byte("ffffffffffffffffffffffff")
 
 // World is one real node with two known members and an unknown sender.
@@ -48,7 +49,7 @@ func NewWorld(seed uint64, cfg Cfg) (*World, error) {
 	conf := puppet.NodeConf{Name: "n0", IP: "10.0.0.1", Port: 7946, IndirectChecks: 1, Label: cfg.Label, SkipLabel: cfg.Skip, ProtocolVersion: cfg.PV,
 		NoVerifyIn: cfg.NoVerify, GossipIntervalMs: 100, ProbeIntervalMs: 1000, ProbeTimeoutMs: 300, TCPTimeoutMs: 2000, Meta: []byte("n0meta"), WithPing: true}
 	if cfg.Encrypt {
-		conf.Keys = [][]byte{KeyA, KeyB}
+		conf.Keys = [][]byte{KeyA, KeyB, KeyC} // primary, a middle one and a last one
 	}
 	p, err := puppet.New(seed, conf)
 	if err != nil {
